@@ -53,6 +53,7 @@ func (iter *ChanIter) MarshalJSON() ([]byte, error) {
 }
 
 func (iter *ChanIter) Next(ctx context.Context) (Object, bool) {
+	verifPoint(2, iter.c, ctx)
 	select {
 	case <-ctx.Done():
 		return nil, false
